@@ -1364,6 +1364,13 @@ M('C04', 'original defect: compiled iadd_prefactor_other transposes other after 
     other = other._transpose_same_labels(self._labels)
 """, 'PAIR-sort-after-reorder')
 
+M('C01', 'split_legs (no blocks): legs spliced in ascending order (round-5 seed a)', NPC,
+  "            for ax in reversed(axes):\n                res.legs[ax : ax + 1] = self.legs[ax].legs", "            for ax in axes:\n                res.legs[ax : ax + 1] = self.legs[ax].legs",
+  'SPLICE-descending')
+M('C01', 'split_legs (no blocks): descending via sorted(reverse=True) (twin)', NPC,
+  "            for ax in reversed(axes):\n                res.legs[ax : ax + 1] = self.legs[ax].legs", "            for ax in sorted(axes, reverse=True):\n                res.legs[ax : ax + 1] = self.legs[ax].legs",
+  None, expect='silent')
+
 # ---------------------------------------------------------------- C16 / C19
 M('C16', 'GMRES restart: relative residual norm used for normalisation (round-3 seed b)', KRY,
   """        self.total_error.append([npc.norm(self.rs[-1]) / self.b_norm])
